@@ -221,6 +221,31 @@ Definition post_outlinks (c : cfg) (s : pstate) (page : bytes) (dom : list node)
   else filter (fun u => negb (p_dc s && negb (dc_match u) && (c_maxhops c <=? p_hops s)%Z))
               (html_outlinks c page dom ++ page_links).
 
+(* extractOutlinks asks IsS3 before IsHTML: a response whose Server header names an S3-like
+   store AND whose Content-Type contains "xml" (as written, case-sensitive) - but is not
+   application/xhtml+xml (isContentType: case-insensitive) - goes to the bucket-listing decoder.
+   [s3_out] is what comes out of that branch (nothing when the decoder rejects the body, as it
+   does for an HTML document).  [is_s3_orig] is IsS3 before the repair C07-s3-xhtml: it also
+   claimed XHTML pages. *)
+Definition s3_servers : list bytes :=
+  [bs "AmazonS3"; bs "WasabiS3"; bs "UploadServer"; bs "Windows-Azure-Blob"; bs "AliyunOSS"].
+Definition s3_server (server : bytes) : bool := existsb (fun s => containsb s server) s3_servers.
+Definition is_s3_orig (server ctype : bytes) : bool :=
+  s3_server server && containsb (bs "xml") ctype.
+Definition is_xhtml (ctype : bytes) : bool := containsb (bs "application/xhtml+xml") (lower ctype).
+Definition is_s3 (server ctype : bytes) : bool :=
+  s3_server server && containsb (bs "xml") ctype && negb (is_xhtml ctype).
+Variable s3_out : list bytes.
+Definition post_outlinks_resp_gen (s3 : bool) (c : cfg) (s : pstate) (page : bytes)
+           (dom : list node) : list bytes :=
+  if post_stops c s || negb (should_outlinks c s) then []
+  else if s3 then s3_out
+  else post_outlinks c s page dom.
+Definition post_outlinks_resp (server ctype : bytes) :=
+  post_outlinks_resp_gen (is_s3 server ctype).
+Definition post_outlinks_resp_orig (server ctype : bytes) :=
+  post_outlinks_resp_gen (is_s3_orig server ctype).
+
 (* ---------- the next pass: NormalizeURL(child, parent) = trim quotes, then the URL parser *)
 Variable norm : bytes -> option bytes.   (* ada against the page URL, scheme/host checks; None = error *)
 Definition requested (c : cfg) (s : pstate) (page : bytes) (dom : list node) : list bytes :=
